@@ -358,4 +358,7 @@ fn run(e: &Engine) {
         },
         check,
     );
+    // keyword chimeras as character data for every integer type
+    let chim: Vec<Case> = crate::model::mnemonic::keyword_chimeras().into_iter().flat_map(|w| IntTy::ALL.into_iter().map(move |ty| Case::Keyword { ty, word: w.clone() })).collect();
+    e.fixed("keyword-chimeras", chim, check);
 }
